@@ -84,7 +84,16 @@ static SimRun one_run(int cpu, const Case &c, bool with_hist = false)
     capture_end(100);
     // back to the prepared state
     prepare(m, c, fill, span);
-    for (uint32_t a = span; a < span + 16; a++) { if (m->read8(a) != ref->read8(a)) { m->write8(a, ref->read8(a)); } }
+    // ... everywhere: the earlier instruction may have stored far outside the prepared span (stm8: SP + offset above 64 KiB)
+    for (MemoryPage *p = m->pages; p != NULL; p = p->next)
+    {
+      if (p->address + PAGE_SIZE <= span) { continue; }
+      for (uint32_t n = 0; n < PAGE_SIZE; n++)
+      {
+        uint32_t a = p->address + n;
+        if (a >= span && m->read8(a) != ref->read8(a)) { m->write8(a, ref->read8(a)); }
+      }
+    }
     sim->reset();
     sim->enable_step_mode();
     sim->set_delay(0);
